@@ -94,6 +94,9 @@ class CommonModels(Models):
             return [(path, NONE)]
         if name.startswith('automat:'):
             return self.automat_input(ex, path, recv, name[len('automat:'):], args, kw)
+        if isinstance(recv, VConc) and type(recv.obj).__module__.startswith(('twisted.python.log', 'twisted.logger')):
+            self.assumptions.add('logging calls (txtorlog.msg, log.msg, log.err, warnings.warn) have no effect and do not raise')
+            return [(path, NONE)]
         return Models.method(self, ex, path, recv, name, args, kw)
 
     # ---- automat (A5)
